@@ -76,7 +76,8 @@ Definition s_as_absolute_coordinates (st : model_state) (l_x : vec) : vec :=
 (if (negb (is_nil (projections st))) then (s_dykstra (projections st) (vmap2 add (xbase st) l_x) 100 (ofdy 7737125245533627 (-86))) else (vmap2 add (xbase st) (vmap2 npmin (vmap2 npmax (sl st) l_x) (su st)))).
 
 Definition s_min_objective_value (st : model_state) : T :=
-(pymax (abs_tol st) (mul (rel_tol st) (objbeg st))).
+let l_rel_thresh := (mul (rel_tol st) (objbeg st)) in
+(if (negb (isfin l_rel_thresh)) then (abs_tol st) else (pymax (abs_tol st) l_rel_thresh)).
 
 Definition s_change_point (st : model_state) (l_k : Z) (l_x : vec) (l_rvec : vec) (l_eval_num : Z) (l_allow_kopt_update : bool) : res (model_state * unit) :=
 bind (if ((Z.leb (npt_so_far st) l_k) && (Z.ltb (npt_so_far st) (num_pts st))) then (
